@@ -146,6 +146,11 @@ def cases(ctx):
         k += 1
         if ctx.mine(k):
             yield {"kind": "first-use", "mode": mode, "expect": "out"}
+    # ---- a subroutine that was encoded once, then had an array operand edited IN PLACE to something unrepresentable ----
+    for what in ("entry-index-16", "entry-address-2^32", "slice-stop-16", "slice-address-negative-overflow", "slice-start-16"):
+        k += 1
+        if ctx.mine(k):
+            yield {"kind": "nested-edit-after-encoding", "what": what, "expect": "out"}
     # ---- integer-like operand types (numpy scalars as produced by application code that computes its operands) ----
     for flav, m in (("vanilla", "set"), ("vanilla", "rot_x"), ("nv", "rot_y"), ("vanilla", "array"), ("vanilla", "store"),
                     ("vanilla", "crot_z"), ("vanilla", "load"), ("reids", "set")):
@@ -319,6 +324,36 @@ def run_case(ctx, case):
         for v in rep["violations"][:1]:
             ctx.fail(case, f"silently altered: in a process whose first {v['mnemonic']} carried its operands as {case['mode']}, "
                            f"{[v['mnemonic'], v['values']]} was encoded without error and decodes as {v['decoded']}")
+        return ctx.case(case, True)
+    if kind == "nested-edit-after-encoding":
+        from netqasm.lang.encoding import RegisterName
+        from netqasm.lang import operand as op_
+        from netqasm.lang.parsing import deserialize
+        what = case["what"]
+        R = lambda i: op_.Register(RegisterName.R, i)
+        prog = [["set", [["R", 1], 1]], ["store", [["R", 1], [2, ["R", 3]]]], ["wait_all", [[2, ["R", 1], ["R", 4]]]], ["load", [["R", 5], [2, ["R", 3]]]]]
+        sub = codec.mk_subroutine("vanilla", [1, 0], 0, prog)
+        first = bytes(sub)
+        ctx.count("subroutines_encoded_before_the_edit")
+        store, wait = sub.instructions[1], sub.instructions[2]
+        if what == "entry-index-16":
+            store.entry.index = R(16)
+        elif what == "entry-address-2^32":
+            store.entry.address = op_.Address(2**32)
+        elif what == "slice-stop-16":
+            wait.slice.stop = R(16)
+        elif what == "slice-start-16":
+            wait.slice.start = R(31)
+        else:
+            wait.slice.address = op_.Address(-(2**31) - 1)
+        try:
+            again = bytes(sub)
+        except Exception:
+            ctx.count("out_of_range_rejected")
+            return ctx.case(case, True)
+        ctx.fail(case, f"silently altered: a subroutine that had been encoded once, then had an array operand edited in place ({what}), was "
+                       f"encoded again without error as {[str(i) for i in deserialize(again).instructions]}"
+                       f"{' (the bytes of the first encoding)' if again == first else ''}")
         return ctx.case(case, True)
     if kind in ("program-direct", "program-text"):
         flav, instrs = case["flavour"], case["instrs"]
